@@ -47,6 +47,7 @@ Inductive case :=
         (manual : option (list Z))     (* Some s: Query.PageState(s) was called (manual paging) *)
         (pf : Z * Z)                   (* Query.Prefetch(num/den) *)
         (ncalls : nat)                 (* consumer calls made (consumers 0-2) *)
+        (retries : nat)                (* > 0: Query.RetryPolicy(retry on the same host, at most this many times per page) *)
         (script : list (reply Z))
         (rows : list Z) (err : option Z) (reqs : list (request qobs)) (state : list Z).
 
@@ -80,9 +81,24 @@ Fixpoint outs_eqb (a : list (option Z)) (b : list (option Z)) : bool :=
 Definition outs_of (rows : list Z) (ncalls : nat) : list (option Z) :=
   map Some rows ++ repeat None (ncalls - length rows).
 
+(* queryExecutor.do with a retry policy that answers Retry: a failed attempt is followed by another
+   execution of the same *Query (query_executor.go:170-180), i.e. for the paging logic the error
+   answer is "the same request again", exactly what UNPREPARED is (conn.go:1479-1482).  Each page's
+   query has its own attempt counter (conn.go:1454 gives newQry fresh metrics), UNPREPARED
+   re-executions happen inside one attempt.  The harness never lets a retried request go unanswered. *)
+Fixpoint retried (n left : nat) (s : list (reply Z)) : list (reply Z) :=
+  match s with
+  | [] => []
+  | RErr _ e :: t => match left with S l => RUnprep Z :: retried n l t | O => s end
+  | RUnprep _ :: t => RUnprep Z :: retried n left t
+  | RPage rows more st :: t => RPage rows more st :: retried n n t
+  | RVoid _ :: _ => s
+  end.
+
 Definition check (c : case) : bool :=
   match c with
-  | CIter consumer cfg manual pf ncalls script rows err reqs state =>
+  | CIter consumer cfg manual pf ncalls retries script0 rows err reqs state =>
+      let script := retried retries retries script0 in
       let q := wire_q cfg in
       let auto := match manual with Some _ => false | None => true end in
       let ps0 := match manual with Some s => s | None => [] end in
